@@ -52,9 +52,10 @@ const (
 	OpSaveCS // SaveChangeSet built from the pending ops (C15)
 	OpExportOpen
 	OpExportClose
+	OpHold // obtain and keep the ImmutableTree of every retained version (read again in every later state)
 )
 
-var opNames = [...]string{"Set", "Remove", "SaveVersion", "Rollback", "Reopen", "LoadVersion", "DeleteVersionsTo", "LoadVersionForOverwriting", "DeleteVersionsFrom+LoadVersion", "SetNil", "Read", "ExportImport", "SaveChangeSet", "ExportOpen", "ExportClose"}
+var opNames = [...]string{"Set", "Remove", "SaveVersion", "Rollback", "Reopen", "LoadVersion", "DeleteVersionsTo", "LoadVersionForOverwriting", "DeleteVersionsFrom+LoadVersion", "SetNil", "Read", "ExportImport", "SaveChangeSet", "ExportOpen", "ExportClose", "HoldVersions"}
 
 type Op struct {
 	Kind OpKind `json:"kind"`
@@ -123,6 +124,8 @@ func (o Op) String() string {
 		return fmt.Sprintf("ExportOpen(v%d)", o.Ver)
 	case OpExportClose:
 		return fmt.Sprintf("ExportClose(v%d)", o.Ver)
+	case OpHold:
+		return "HoldVersions"
 	}
 	return "?"
 }
@@ -151,14 +154,19 @@ func viol(oracle, format string, a ...any) *Violation {
 }
 
 type World struct {
-	Cfg            Cfg
-	Base           corestore.KVStoreWithBatch // the physical store
-	VS             *vstore.Store              // == Base when Backend is vstore
-	DB             corestore.KVStoreWithBatch // what iavl sees (PrefixDB wraps Base)
-	Tree           *iavl.MutableTree
-	M              *Model
-	tmp            string // temp dir of a leveldb backend
-	exps           map[int64][]*iavl.Exporter
+	Cfg  Cfg
+	Base corestore.KVStoreWithBatch // the physical store
+	VS   *vstore.Store              // == Base when Backend is vstore
+	DB   corestore.KVStoreWithBatch // what iavl sees (PrefixDB wraps Base)
+	Tree *iavl.MutableTree
+	M    *Model
+	tmp  string // temp dir of a leveldb backend
+	exps map[int64][]*iavl.Exporter
+	// held: ImmutableTrees obtained earlier in the history (OpHold) with the contents they had then; they are
+	// read again in every later state while their version is retained (the sequential shadow of C06)
+	held           map[int64]*iavl.ImmutableTree
+	heldC          map[int64]smap
+	NHolds         int
 	Dead           bool // a panic / unrecoverable error happened in the instance
 	NMaint         int
 	NReads         int
@@ -296,6 +304,14 @@ func (w *World) Apply(op Op) *Violation {
 	if v != nil && v.Oracle == "panic" {
 		w.Dead = true
 	}
+	// a held ImmutableTree whose version has been deleted (pruned or rolled back) is given up for good: reading
+	// a deleted version is outside the contract, also when the version number is used again later
+	for ver := range w.held {
+		if !w.M.Has(ver) {
+			delete(w.held, ver)
+			delete(w.heldC, ver)
+		}
+	}
 	return v
 }
 
@@ -398,6 +414,17 @@ func (w *World) apply(op Op) *Violation {
 		return w.applyExportOpen(op)
 	case OpExportClose:
 		return w.applyExportClose(op)
+	case OpHold:
+		w.NHolds++
+		w.held, w.heldC = map[int64]*iavl.ImmutableTree{}, map[int64]smap{}
+		for _, v := range w.M.Versions() {
+			it, err := w.Tree.GetImmutable(v)
+			if err != nil {
+				return viol("api", "GetImmutable(%d) of a retained version failed: %v", v, err)
+			}
+			w.held[v], w.heldC[v] = it, w.M.Conts[v]
+		}
+		return nil
 	default:
 		panic("unknown op")
 	}
@@ -451,6 +478,7 @@ func (w *World) applyReopen(op Op) *Violation {
 		}
 	}
 	w.exps = map[int64][]*iavl.Exporter{}
+	w.held, w.heldC = nil, nil // they belong to the instance that is closed
 	_ = w.Tree.Close()
 	cfg := w.Cfg
 	cfg.Cache, cfg.Fast, cfg.Flush = op.Cache, op.Fast, op.Flush
